@@ -72,10 +72,20 @@ class AbstractOnlineUpdateVisitor(AbstractAstVisitor):
         self.results[node] = sample_return
         return sample_return
 
+    def reuse(self, node, online_operator_dict, var_object_dict):
+        # node.name was already stepped in this update: give this occurrence (and the nodes
+        # below it) the outputs computed for the first one, without stepping anything again
+        for child in node.children:
+            if child.name in self.stepped:
+                self.reuse(child, online_operator_dict, var_object_dict)
+            else:
+                self.visit(child, online_operator_dict, var_object_dict)
+        self.results[node] = self.stepped[node.name]
+        return self.stepped[node.name]
+
     def visitBinary(self, node, online_operator_dict, var_object_dict):
         if node.name in self.stepped:
-            self.results[node] = self.stepped[node.name]
-            return self.stepped[node.name]
+            return self.reuse(node, online_operator_dict, var_object_dict)
         sample_left  = self.visit(node.children[0], online_operator_dict, var_object_dict)
         sample_right = self.visit(node.children[1], online_operator_dict, var_object_dict)
         operator = online_operator_dict[node.name]
@@ -86,8 +96,7 @@ class AbstractOnlineUpdateVisitor(AbstractAstVisitor):
 
     def visitUnary(self, node, online_operator_dict, var_object_dict):
         if node.name in self.stepped:
-            self.results[node] = self.stepped[node.name]
-            return self.stepped[node.name]
+            return self.reuse(node, online_operator_dict, var_object_dict)
         sample = self.visit(node.children[0], online_operator_dict, var_object_dict)
         op = online_operator_dict[node.name]
         sample_return = op.update(sample)
